@@ -1,7 +1,6 @@
 package world
 
 import (
-	"time"
 	"bytes"
 	"compress/flate"
 	"crypto"
@@ -14,6 +13,7 @@ import (
 	"io"
 	"net/url"
 	"strings"
+	"time"
 
 	"github.com/beevik/etree"
 	dsig "github.com/russellhaering/goxmldsig"
